@@ -156,20 +156,43 @@ func observe(nd *dkgsys.Node, c call, seed []byte) string {
 }
 
 // equivalent compares the observable behaviour of two instances under all continuations up to depth.
-func equivalent(a, b *dkgsys.Node, alpha []call, seed []byte, depth int) (bool, string) {
-	if a.InstHash() == b.InstHash() {
+type eqKey struct {
+	a, b  [32]byte
+	depth int
+}
+
+type eqRes struct {
+	ok  bool
+	why string
+}
+
+// equivalent: observational equivalence of two instances under all continuations up to `depth`
+// calls. Memoised on (state, state, depth): the continuation tree is a DAG over canonical states.
+func equivalent(a, b *dkgsys.Node, alpha []call, seed []byte, depth int, memo map[eqKey]eqRes) (bool, string) {
+	ha, hb := a.InstHash(), b.InstHash()
+	if ha == hb {
 		return true, ""
 	}
 	if depth == 0 {
 		return true, ""
 	}
+	k := eqKey{ha, hb, depth}
+	if r, ok := memo[k]; ok {
+		return r.ok, r.why
+	}
+	ok, why := equivalentUncached(a, b, alpha, seed, depth, memo)
+	memo[k] = eqRes{ok, why}
+	return ok, why
+}
+
+func equivalentUncached(a, b *dkgsys.Node, alpha []call, seed []byte, depth int, memo map[eqKey]eqRes) (bool, string) {
 	for _, c := range alpha {
 		ca, cb := a.Clone(), b.Clone()
 		oa, ob := observe(ca, c, seed), observe(cb, c, seed)
 		if oa != ob {
 			return false, fmt.Sprintf("%s: %q vs %q", c.Name, oa, ob)
 		}
-		if ok, why := equivalent(ca, cb, alpha, seed, depth-1); !ok {
+		if ok, why := equivalent(ca, cb, alpha, seed, depth-1, memo); !ok {
 			return false, c.Name + " ; " + why
 		}
 	}
@@ -267,6 +290,7 @@ func explore(r role, maxDepth int) {
 	states, trans, depthReached := 1, 0, 0
 	hitCap := false
 	outcomes := map[string]int{}
+	eqMemo := map[eqKey]eqRes{}
 	var validate [][]int
 	names := func(p []int) []string {
 		var o []string
@@ -319,7 +343,7 @@ func explore(r role, maxDepth int) {
 			}
 			if cls == "state" || cls == "input" {
 				// a rejected call must not change the observable behaviour
-				if okEq, why := equivalent(it.nd, nd, alpha, seed, 3); !okEq {
+				if okEq, why := equivalent(it.nd, nd, alpha, seed, 3, eqMemo); !okEq {
 					run.Violation(fmt.Sprintf("fsm:%s:%s:rejected-%s-interferes", r.Proto, r.Name, c.Kind),
 						fmt.Sprintf("%s %s after %v: rejected call %s changes later behaviour: %s", r.Proto, r.Name, names(it.path), c.Name, why), rep)
 					continue
@@ -448,9 +472,9 @@ func replay(roles []role) {
 
 func main() {
 	run = ev.Start("C10", "model_checking")
-	depth := 10
+	depth := 20
 	if run.Thorough() {
-		depth = 16
+		depth = 40
 	}
 	roles := []role{
 		{dkgsys.FVSS, 3, 1, 0, 0, "dealer"},
